@@ -383,12 +383,12 @@ fn gate_strategy() -> impl Strategy<Value = GateCase> {
             for (i, mut c) in others.into_iter().enumerate() {
                 // every second schema names its first plain column "p.c1": a
                 // dotted identifier whose tail is the next column's name
-                c.name = if i == 0 && upd_col % 2 == 1 { "p.c1".to_string() } else { format!("c{i}") };
+                c.name = if i == 0 && (upd_col / 7) % 2 == 1 { "p.c1".to_string() } else { format!("c{i}") };
                 cols.push(c);
             }
             // one schema in three has a second key column at the end, behind
             // the non-key columns (key columns need not come first)
-            if cols.len() >= 3 && upd_col % 3 == 2 {
+            if cols.len() >= 3 && (upd_col / 11) % 3 == 2 {
                 let last = cols.len() - 1;
                 cols[last].key = true;
                 cols[last].nullable = false;
